@@ -32,18 +32,28 @@ func init() {
 		ID:       "C16",
 		Builds:   []string{"default", "386"}, // the 386 build runs 1/4 of the random classes on a 32-bit target
 		Scale386: 4,
+		// a history case scans its share of all 2^30 checksum values when Decode turns out to depend on the call before it
+		StallClass:       map[string]int{"history": 1500},
+		WatchdogQuick:    3000,
+		WatchdogThorough: 7200,
 		Rule: "valid strings built by the model encoder (total lengths 90 down to 12, lower and upper case, human-readable parts with letters and digits). w1: every substitution of one character; w2: every substitution of two characters (one case per first position, all second positions and all replacement values inside); w34: seeded random patterns of 3 and 4 changed characters. " +
 			"A data-part character (checksum included) is replaced by every other charset character in the case of the string, a letter of the human-readable part by every other letter of the same case, a digit by every other digit. Every corrupted string goes through bech32.Decode; an acceptance is a violation. " +
 			"syndrome (one case, shard 0): sigma(j,v) = polymod(base xor e_{j,v}) xor polymod(base) is read from the real bech32Polymod (hook VerifPolymod) for every distance j = 0..88 from the end and every v = 1..31 on several random bases of lengths 89..178; independence of base and length and additivity on sampled patterns are monitored; all single and pair sums (and the empty sum) are sorted and searched for equal values: two different entries with the same value are an undetected error of weight <= 4; a hit is turned into a pair of concrete strings and confirmed through bech32.Encode/Decode before it is reported. " +
 			"concurrent: 8 goroutines call Decode at once on valid strings with related human-readable parts and on corrupted strings made of a related human-readable part (1..4 letters changed) and the data part of a valid string; every corrupted string must be rejected. acceptset: for one valid string the six checksum symbols are XORed with a 30-bit delta, which makes the checksum polymod 1^delta; Decode must reject every delta != 0: plausible constants (Bech32m, 0, small values, single bits) on every shard and 2^22-value chunks of all 2^30 values (one random chunk per shard in quick, all 256 chunks = exhaustive in thorough); an accepted delta is converted with the syndrome table into an error pattern of weight <= 4 and confirmed as a pair of strings. " +
-			"Non-trivial: every w2, w34, acceptset and syndrome case (distinct (string, first position) resp. (string, pattern seed)).",
+			"history: the acceptance-set scan on an 89-character valid string with a rejected Decode call in front of every probe (8 kinds of rejected strings: invalid character at the end / in the middle of the data part, data part shorter than a checksum, mixed case, wrong checksum, no separator, over-long, empty human-readable part); 2^17 checksum values per kind and shard in the quick tier, 2^23 in the thorough tier, and all 2^30 (split over the shards) as soon as the valid string itself is rejected after such a call; an accepted value is turned into a pattern of at most four substitutions inside the data part of the same string and confirmed through the same two calls. " +
+			"Non-trivial: every w2, w34, acceptset, history and syndrome case (distinct (string, first position) resp. (string, pattern seed)).",
 		Assumptions: []string{"the BIP-173 port in harness/oracle/bech32m builds the valid strings (self-tested against the vectors published in BIP-173); the library must accept them, otherwise that is reported",
 			"layer (c) judges the function the hook exposes; that Decode uses it is what the w1/w2/w34 layers observe"},
 		SelfTest: bech32m.SelfTest,
 		Gen:      gen,
 		Judge:    judge,
 		Render:   render,
-		Required: []string{"concurrent executions", "acceptance-set scan: targeted constants", "acceptance-set scan: 2^22 chunks", cW1, cW2, cW34, cHRP, cTable, cAdditive, cMitm, "syndromes recorded (j, v)"},
+		Post: func(r *fw.RunResult) {
+			if r.Counters["history anomaly: valid string rejected right after a rejected call"] > 0 && r.ViolTotal == 0 {
+				r.AddInconclusive("Decode rejected a valid string right after a rejected call (it depends on the call before it), but no string within four substitutions of a valid one was found to be accepted in that situation")
+			}
+		},
+		Required: []string{"history: valid string accepted right after a rejected call", "history scan: checksum values tried through Decode, each right after a rejected call", "concurrent executions", "acceptance-set scan: targeted constants", "acceptance-set scan: 2^22 chunks", cW1, cW2, cW34, cHRP, cTable, cAdditive, cMitm, "syndromes recorded (j, v)"},
 	})
 }
 
@@ -54,6 +64,8 @@ func render(class string, key []byte) interface{} {
 		return map[string]interface{}{"seed": fw.GetU64(p[0])}
 	case "concurrent":
 		return map[string]interface{}{"seed": fw.GetU64(p[0]), "scenario": "8 goroutines decode valid strings with related human-readable parts and corrupted strings (related hrp + data part of a valid string)"}
+	case "history":
+		return map[string]interface{}{"rejected_string_decoded_before_every_probe": poison(fw.GetU64(p[0]), p[1][0]), "base_seed": fw.GetU64(p[0]), "share": fmt.Sprintf("%d of %d", fw.GetU32(p[2]), fw.GetU32(p[3]))}
 	case "acceptset":
 		return map[string]interface{}{"base_string": bechscan.Base(fw.GetU64(p[0])), "mode": map[byte]string{0: "targeted constants", 1: "chunk of 2^22 checksum values"}[p[1][0]], "chunk": fw.GetU32(p[2])}
 	case "w1":
@@ -144,6 +156,10 @@ func judge(class string, key []byte, o *fw.Obs) {
 	}
 	if class == "concurrent" {
 		judgeConcurrent(fw.GetU64(p[0]), o)
+		return
+	}
+	if class == "history" {
+		judgeHistory(fw.GetU64(p[0]), p[1][0], fw.GetU32(p[2]), fw.GetU32(p[3]), p[4][0] == 1, o)
 		return
 	}
 	if class == "acceptset" {
@@ -601,6 +617,16 @@ func gen(g *fw.Gen) {
 			if g.Own(c) {
 				g.Emit("acceptset", fw.Pack(fw.U64(uint64(g.Seed)), []byte{1}, fw.U32(uint32(c))))
 			}
+		}
+	}
+	// the same scan with a rejected call in front of every probe (8 kinds of rejected strings)
+	if g.Build != "386" {
+		for k := 0; k < 8; k++ {
+			th := byte(0)
+			if !g.Quick() {
+				th = 1
+			}
+			g.Emit("history", fw.Pack(fw.U64(uint64(g.Seed)*8+uint64(k)), []byte{byte(k)}, fw.U32(uint32(g.Shard)), fw.U32(uint32(g.NShards)), []byte{th}))
 		}
 	}
 	list := bases(g.Seed, g.Scaled(g.Pick(6, 100)))
